@@ -648,6 +648,8 @@ def run_C10(rng, tier):
         _, xs = gen_stream(rng, L, grid=g)
         _, ys = gen_stream(rng, L, grid=g)
         a, b = F(rng.below(13) - 6, 1 if heavy else 2), F(rng.below(13) - 6, 1 if heavy else 2)
+        if i % 5 == 4:
+            a, b = a * rng.choice([F(1, 10 ** 15), F(1, 2 ** 70), F(10 ** 9)]), b * rng.choice([F(1, 10 ** 15), F(0), F(1, 2 ** 70)])
         zs = [a * x + b * y for x, y in zip(xs, ys)]
         t = (Case.simple(d, xs, {"view": name, "regime": "x"}), Case.simple(d, ys, {"view": name, "regime": "y"}), Case.simple(d, zs, {"view": name, "regime": "ax+by"}), (a, b))
         triples.append(t)
@@ -720,7 +722,21 @@ def run_C12(rng, tier):
     pair("affine", ("Cti", 5, E), [F(5), F(3)], [F(5) + 7, F(3) + 7], (F(1), F(7)))    # D15
     run_impl(cases)
     viols = O.c12(groups)
-    return finish("C12", "C12", cases, viols, "paired runs x vs a*x+b / a*x / -x with rational a>0 and b for every view the property names; exact equality / scaling / negation of the outputs at every step (degenerate flat windows excluded as the property says)")
+    # f64, a = 2^k: bit-exact (the property's power-of-two clause); searched on the implementation, not proved
+    fpairs = []
+    for i in range(36 * k):
+        inv = i % 2 == 0
+        name = (AFFINE_INV + SCALE_INV)[(i // 2) % len(AFFINE_INV + SCALE_INV)] if inv else SCALE_EQ[(i // 2) % len(SCALE_EQ)]
+        d = mk_view(rng, name)
+        kk = rng.choice([-40, -30, 20, -50])
+        a = F(2) ** kk
+        _, xs = gen_stream(rng, 40, positive=needs_positive(d), grid=rng.choice([10, 7, 3]))
+        c1 = Case.simple(d, xs, {"view": name, "regime": "base", "model": False, "mode": "f64"})
+        c2 = Case.simple(d, [a * x for x in xs], {"view": name, "regime": "x*2^%d" % kk, "model": False, "mode": "f64"})
+        fpairs.append((c1, c2, (kk, inv)))
+    run_impl([c for p_ in fpairs for c in p_[:2]], mode="f64", profile="release")
+    viols += O.c12_pow2(fpairs)
+    return finish("C12", "C12", cases, viols, "paired runs x vs a*x+b / a*x / -x with rational a>0 and b for every view the property names; exact equality / scaling / negation of the outputs at every step (degenerate flat windows excluded as the property says); f64 pairs x vs 2^k*x compared bit for bit", {"f64_pow2_pairs": len(fpairs)})
 
 # ---------------------------------------------------------------------------------- C15
 def run_C15(rng, tier):
@@ -798,7 +814,7 @@ def run_C17(rng, tier):
             r = rng.below(10)
             i_ = rng.below(len(lin))
             if r < 5:
-                x = F(1 + rng.below(80), 1 if heavy else 4) if (pos or inner[0] == "LnReturn") else F(rng.below(81) - 40, 1 if heavy else 4)
+                x = F(1 + rng.below(80), 1 if heavy else 10) if (pos or inner[0] == "LnReturn") else F(rng.below(81) - 40, 1 if heavy else 10)
                 if twin and s < steps // 2:
                     for j in range(len(lin)):
                         ops.append(("u", j, x))
@@ -932,7 +948,7 @@ def run_C09(rng, tier):
         ns = nlist(lo) if name != "Laguerre" else [0]
         for n in (ns if tier == "thorough" else ns[::2] + ns[-1:]):
             if name == "Laguerre":
-                d = ("Laguerre", rng.choice([F(0), F(1, 2), F(4, 5), F(9, 10), F(99, 100)]), E)
+                d = ("Laguerre", rng.choice([F(0), F(1, 2), F(4, 5), F(9, 10)]), E)
             elif name == "Roofing":
                 d = ("Roofing", n, 1 + rng.below(8), E)
             elif name == "Eft":
@@ -949,6 +965,15 @@ def run_C09(rng, tier):
             p2 = [F(rng.below(2000) - 1000, 10) for _ in range(40)]
             pairs.append((long_case(d, p1 + tail, {"view": name, "regime": "prefixA+tail"}, every=10 ** 9),
                           long_case(d, p2 + tail, {"view": name, "regime": "prefixB+tail"}, every=10 ** 9)))
+            if n in (ns[0], ns[-1]):
+                # an early excursion of huge values / a tail of tiny amplitude must fade all the same
+                p3 = [F(rng.below(2000) - 1000) * 10 ** 13 for _ in range(40)]
+                _, tail2 = gen_stream(rng, L, "iid", grid=8)      # the slowest proven rate here is 0.96 per step on a squared quantity: 4000 steps cover 1e32
+                pairs.append((long_case(d, p1 + tail2, {"view": name, "regime": "prefixA+tail"}, every=10 ** 9),
+                              long_case(d, p3 + tail2, {"view": name, "regime": "hugeprefix+tail"}, every=10 ** 9)))
+                tiny = [x / 10 ** 9 for x in tail]
+                pairs.append((long_case(d, p1 + tiny, {"view": name, "regime": "prefixA+tinytail"}, every=10 ** 9),
+                              long_case(d, p2 + tiny, {"view": name, "regime": "prefixB+tinytail"}, every=10 ** 9)))
     chains = [("Ema", 3, ("Ss", 5, E)), ("Ss", 4, ("Roofing", 3, 2, E)), ("Laguerre", F(1, 2), ("Cyber", 6, ("Ema", 2, E))), ("Lrsi", 4, ("Ss", 3, E)), ("Eft", 5, ("Ema", 3, E), ("Ema", 3, E))]
     for d in chains:
         _, xs = gen_stream(rng, L, "iid", grid=8)
@@ -983,8 +1008,8 @@ def run_C16(rng, tier):
             xs = []
             # exact runs of the recursive views grow by a few bits per step: shorter streams there
             for _ in range(L if name not in ("Ema", "Cyber") else 1500):
-                c += F(rng.below(199) - 99)          # steps 1..99 (or 0)
-                c = max(F(1), min(F(1000), c))
+                st = F(rng.below(99) + 1) * rng.choice([1, -1])      # non-zero steps 1..99, reflected at the borders
+                c = c + st if F(1) <= c + st <= F(1000) else c - st
                 xs.append(c)
             meta = {"view": name, "regime": "long-bounded-range", "model": False}
             groups.append(("long", sampled(d, xs, dict(meta, mode="f64"), 997), sampled(d, xs, dict(meta, mode="ex"), 997), None))
@@ -1002,6 +1027,14 @@ def run_C16(rng, tier):
             xs = pre + flat
             meta = {"view": name, "regime": "volatile-then-flat", "model": False, "flat_len": len(flat), "flat_value": str(v)}
             groups.append(("flat", Case.simple(d, xs, dict(meta, mode="f64")), Case.simple(d, xs, dict(meta, mode="ex")), v))
+    # the same shapes at tiny and at large units (powers of two): scale-free indicators must not notice
+    for name in ("Hln", "Net", "Roc", "Sma", "Ema", "Min", "Cumulative"):      # not the sqrt-based ones: the surrogate sqrt is not scale-free
+        for kk in (-60, 40):
+            n = rng.choice([2, 3, 5])
+            d = (name, n, E)
+            xs = [F(rng.below(9000) + 1, 10) * F(2) ** kk for _ in range(60)]
+            meta = {"view": name, "regime": "units-2^%d" % kk, "model": False}
+            groups.append(("long", Case.simple(d, xs, dict(meta, mode="f64")), Case.simple(d, xs, dict(meta, mode="ex")), None))
     # recorded D14 witnesses
     for d, xs in ((("Rsi", 3, E), [1, 2, 1000000, 3, 5, 5, 5, 5, 5]), (("MyRsi", 3, E), [1, 2, 1000000, 3, 5, 5, 5, 5, 5])):
         meta = {"view": d[0], "regime": "volatile-then-flat", "model": False, "flat_len": 5, "flat_value": "5"}
@@ -1016,8 +1049,8 @@ def run_C16(rng, tier):
         xs = []
         c = F(500)
         for _ in range(3000):
-            c += F(rng.below(199) - 99)
-            c = max(F(1), min(F(1000), c))
+            st = F(rng.below(99) + 1) * rng.choice([1, -1])
+            c = c + st if F(1) <= c + st <= F(1000) else c - st
             xs.append(c)
         meta = {"view": name, "regime": "f32-long", "model": False}
         f32.append(("f32", sampled(d, xs, dict(meta, mode="f32"), 499), sampled(d, xs, dict(meta, mode="ex"), 499), None))
